@@ -51,6 +51,8 @@ def resolve(qual):
 
 def gen_real(rnd):
     k = rnd.random()
+    if k < 0.12:
+        return 0.0                      # exact zero: truthiness confusions (`x or default`, `if not x`)
     if k < 0.6:
         return float(rnd.randint(-8, 8)) / 2.0
     if k < 0.8:
